@@ -158,8 +158,16 @@ class PackedTensor(torch.Tensor):
             # Move data
             data = op(t._data, **kwargs)
             return PackedTensor(data, t._bits, t.size(), t.stride())
+        packed = args[0] if len(args) > 0 and isinstance(args[0], PackedTensor) else None
         args, kwargs = pytree.tree_map_only(PackedTensor, lambda x: x.unpack(), (args, kwargs or {}))
-        return op(*args, **kwargs)
+        output = op(*args, **kwargs)
+        schema_args = op._schema.arguments
+        if packed is not None and schema_args[0].alias_info is not None and schema_args[0].alias_info.is_write:
+            # In-place operation: it has only modified the unpacked values, that must be packed again
+            if args[0].shape == packed.shape:
+                packed._data = pack_weights(args[0], packed._bits)
+                return packed
+        return output
 
     def numpy(self):
         return self.unpack().cpu().numpy()
